@@ -68,7 +68,7 @@ fn cases(tier: Tier) -> Vec<Case> {
     }
     // the same requested list put to many freshly built numbers in a row (one thread, numbers dropped in between)
     out.push(Case::SameListSequence { nuni: 3 });
-    for size in [5usize, 7, 8, 9, 16, 17, 33] {
+    for size in [3usize, 4, 5, 7, 8, 9, 15, 16, 17, 20, 24, 33] {
         out.push(Case::Large { size });
     }
     let pn = 3;
@@ -212,24 +212,74 @@ pub fn check(case: &Case, idx: u64, acc: &mut Acc) {
                 }
             }
             let d2 = Dual2::try_new(0.75, stored.iter().map(|i| name(*i)).collect(), stored.iter().map(|i| gv(*i)).collect(), hflat).unwrap();
-            // requested lists; index >= size means an absent name
-            let mut reqs: Vec<Vec<usize>> = vec![
-                stored.clone(),
-                stored.iter().rev().cloned().collect(),
-                (0..size).collect(),
-                (0..size).map(|i| stored[(i + 2) % size]).collect(),
-                (0..size).filter(|i| i % 2 == 0).collect(),
-                (0..size + 3).rev().collect(),
-                vec![stored[0], stored[size - 1], stored[size / 2]],
-            ];
-            let mut mixed = vec![];
-            for i in 0..size {
-                mixed.push(stored[i]);
-                if i % 3 == 1 {
-                    mixed.push(size + i);
+            // requested lists; index >= size means an absent name. The menu is the product of
+            //   selection (which stored names) x order (how they are arranged) x padding (absent names added)
+            let mut selections: Vec<Vec<usize>> = vec![stored.clone()];
+            for omit in [0usize, 1, size / 2, size - 1] {
+                selections.push(stored.iter().enumerate().filter(|(p, _)| *p != omit).map(|(_, v)| *v).collect());
+            }
+            selections.push(stored.iter().enumerate().filter(|(p, _)| p % 2 == 0).map(|(_, v)| *v).collect());
+            for (lo, hi) in [(1usize, size - 1), (0, size - 1), (1, size), (size / 4, size / 4 + size / 2 + 1), (2.min(size - 3), size - 1)] {
+                if lo + 3 <= hi && hi <= size {
+                    selections.push(stored[lo..hi].to_vec());
+                    // a block with one interior name replaced by a name stored elsewhere
+                    if lo > 0 {
+                        let mut v = stored[lo..hi].to_vec();
+                        let mid = v.len() / 2;
+                        v[mid] = stored[0];
+                        selections.push(v);
+                    }
                 }
             }
-            reqs.push(mixed);
+            selections.push(vec![stored[0], stored[size - 1], stored[size / 2]]);
+            selections.push(vec![stored[size - 1], stored[0]]);
+            let mut reqs: Vec<Vec<usize>> = vec![(0..size).collect(), (0..size + 3).rev().collect()];
+            for sel in selections.iter() {
+                let n = sel.len();
+                let mut orders: Vec<Vec<usize>> = vec![sel.clone(), sel.iter().rev().cloned().collect()];
+                if n >= 4 {
+                    let mut v = sel.clone();
+                    v.swap(n / 3, 2 * n / 3); // two interior names swapped, ends in place
+                    orders.push(v);
+                    let mut v = sel.clone();
+                    v[1..n - 1].reverse(); // interior reversed, ends in place
+                    orders.push(v);
+                    let mut v = sel.clone();
+                    v.rotate_left(2);
+                    orders.push(v);
+                    let mut v = sel.clone();
+                    v.swap(0, n - 1); // ends swapped
+                    orders.push(v);
+                }
+                for ord in orders {
+                    // padding with absent names
+                    reqs.push(ord.clone());
+                    let mut inter = vec![];
+                    for (i, v) in ord.iter().enumerate() {
+                        inter.push(*v);
+                        if i % 3 == 1 {
+                            inter.push(size + i);
+                        }
+                    }
+                    reqs.push(inter);
+                    let many = 4 * size + 2; // request far longer than the stored list
+                    let mut front: Vec<usize> = (0..many).map(|i| size + 100 + i).collect();
+                    front.extend(ord.iter().cloned());
+                    reqs.push(front);
+                    let mut back = ord.clone();
+                    back.extend((0..many).map(|i| size + 100 + i));
+                    reqs.push(back);
+                    let mut spread = vec![];
+                    let per = many / ord.len().max(1) + 1;
+                    for (i, v) in ord.iter().enumerate() {
+                        spread.push(*v);
+                        spread.extend((0..per).map(|j| size + 100 + i * per + j));
+                    }
+                    reqs.push(spread);
+                }
+            }
+            reqs.sort();
+            reqs.dedup();
             for req in reqs.iter() {
                 acc.evals_add(4);
                 acc.nontrivial();
@@ -378,8 +428,10 @@ pub fn run(ctx: &Ctx, replay_file: Option<String>) -> ! {
          (incl. exactly-the-stored-list, its permutations, sub/supersets). gradient1 (Dual, Dual2), gradient2 and \
          gradient1_manifold are compared entry by entry, exactly, with the by-name derivative (0 for absent). Product \
          identity manifold(f*g)[i] = manifold(f)[i]*g + f*manifold(g)[i] for every pair of a 3-name pool with full \
-         Hessians and every requested list. Larger numbers on a menu (5..33 names) through a menu of requests (stored, reversed, sorted, rotated, every \
-         other, with absent names, three scattered names). History independence: every requested list put, in a row on one thread, to \
+         Hessians and every requested list. Larger numbers on a menu (3..33 names) through a request menu that is the product of selection (all stored names, one omitted at the \
+         front / second / middle / end, every other, contiguous blocks, a block with one name replaced by a name stored elsewhere, scattered names) x order \
+         (stored, reversed, two interior names swapped, interior reversed, rotated, ends swapped) x padding with absent names (none, interleaved, \
+         4*size+2 absent names in front / behind / spread through). History independence: every requested list put, in a row on one thread, to \
          every layout of a 3-name pool, each number built fresh and dropped before the next. Non-trivial: requests that differ from the stored list.",
         json!({"names": 4, "requested_lists": ordered_sublists(5).len(), "cases": cs.len()}),
     )
